@@ -146,7 +146,9 @@ func cmpDoc(d *refjson.Doc, o geojson.Object, circles bool) error {
 
 func c07Judge(c *mon.Ctx, text, mutation string, opts *geojson.ParseOptions) refjson.Result {
 	res := refjson.Classify(text)
-	c.SetCase(func() interface{} { return c07Case{Text: text, Class: res.Class.String(), Reason: res.Reason, Mutation: mutation} })
+	c.SetCase(func() interface{} {
+		return c07Case{Text: text, Class: res.Class.String(), Reason: res.Reason, Mutation: mutation}
+	})
 	c.Try(func() {
 		o, err := geojson.Parse(text, opts)
 		c.Eval()
@@ -265,8 +267,8 @@ func init() {
 		must = append(must, "mutant "+m+" -> defect")
 	}
 	mon.Register(&mon.Prop{
-		ID:    "C07",
-		Rule:  "grammar-generated GeoJSON documents (all nine types and the Circle convention, nesting <= 5, 2-4-D and mixed-dimension positions, null ordinates, duplicate and \\u-escaped reserved members, shuffled member order, foreign members of any JSON shape, random whitespace, unusual number spellings); for each, mutants for every structural defect class of the statement at a random nesting level, and byte-level corruptions (trailing/leading bytes, truncation, dropped/swapped bytes, random bytes, BOM, two documents). Every text is classified by the independent reference reader: well-formed => must be accepted and decode to the same type/nesting/child order/x,y; listed defect => must be rejected with error and nil object; otherwise not asserted. Non-trivial = distinct text classified well-formed or defect.",
+		ID:          "C07",
+		Rule:        "grammar-generated GeoJSON documents (all nine types and the Circle convention, nesting <= 5, 2-4-D and mixed-dimension positions, null ordinates, duplicate and \\u-escaped reserved members, shuffled member order, foreign members of any JSON shape, random whitespace, unusual number spellings); for each, mutants for every structural defect class of the statement at a random nesting level, and byte-level corruptions (trailing/leading bytes, truncation, dropped/swapped bytes, random bytes, BOM, two documents). Every text is classified by the independent reference reader: well-formed => must be accepted and decode to the same type/nesting/child order/x,y; listed defect => must be rejected with error and nil object; otherwise not asserted. Non-trivial = distinct text classified well-formed or defect.",
 		Assumptions: []string{"reference reader: internal/refjson on encoding/json's token stream (last duplicate member wins)", "texts the statement classifies on neither side (positions with more than four ordinates, Circle convention with non-numeric radius or unknown units, duplicate members inside properties) are counted as unclassified and not asserted"},
 		Run:         c07Run,
 		MustSee:     must,
